@@ -26,14 +26,14 @@ Definition interp_fwd (ls : list nat) (ws : vec) (x : vec) : vec :=
   vadd R (vmul R (map (fun w => 1r -r w) ws) (restr_fwd R ls x))
          (vmul R ws (restr_fwd R (map S ls) x)).
 (* the code's adjoint: sum of the adjoints of the two products; each
-   Restriction adjoint is an assignment (put_along_axis), not an accumulation *)
+   Restriction adjoint accumulates (np.add.at, fix 1a499ab) *)
 Definition interp_adj (n : nat) (ls : list nat) (ws : vec) (y : vec) : vec :=
   vadd R (restr_adj R n ls (vmul R (map (fun w => 1r -r w) ws) y))
          (restr_adj R n (map S ls) (vmul R ws y)).
-(* the transpose of the forward for every position list *)
-Definition interp_adj_add (n : nat) (ls : list nat) (ws : vec) (y : vec) : vec :=
-  vadd R (scatter_add R n ls (vmul R (map (fun w => 1r -r w) ws) y))
-         (scatter_add R n (map S ls) (vmul R ws y)).
+(* Legacy (assigning Restriction adjoints, before 1a499ab) *)
+Definition interp_adj_legacy (n : nat) (ls : list nat) (ws : vec) (y : vec) : vec :=
+  vadd R (restr_adj_legacy R n ls (vmul R (map (fun w => 1r -r w) ws) y))
+         (restr_adj_legacy R n (map S ls) (vmul R ws y)).
 Definition interp_spec (ls : list nat) (ws : vec) (i : nat) (x : vec) : R :=
   (1r -r nth i ws 0r) *r nth (nth i ls (length x)) x 0r +r nth i ws 0r *r nth (S (nth i ls (length x))) x 0r.
 
@@ -81,21 +81,18 @@ Proof. intros Hw Hi. rewrite interp_fwd_wg.
   rewrite !nth_wg by (rewrite ?map_length; auto). unfold interp_spec.
   rewrite (nth_map' (fun w => 1r -r w) ws i 0r 0r) by lia.
   rewrite (nth_map' S ls i (length x) (length x)) by lia. reflexivity. Qed.
-(* forward and the accumulating adjoint are transposes for EVERY position list *)
+(* forward and the coded adjoint are transposes for EVERY position list
+   (two positions in the same cell [l, l+1) included) *)
 Theorem interp_adjoint ls ws x y : length ws = length ls -> length y = length ls ->
-  dotu R (interp_fwd ls ws x) y = dotu R x (interp_adj_add (length x) ls ws y).
-Proof. intros Hw Hy. rewrite interp_fwd_wg. unfold interp_adj_add.
+  dotu R (interp_fwd ls ws x) y = dotu R x (interp_adj (length x) ls ws y).
+Proof. intros Hw Hy. rewrite interp_fwd_wg. unfold interp_adj, restr_adj.
   rewrite dotu_vadd_l by (rewrite !wg_length; rewrite ?map_length; auto).
   rewrite dotu_vadd_r by (rewrite !scatter_add_length; auto).
   rewrite !wg_adjoint by (rewrite ?map_length; auto). reflexivity. Qed.
-(* the code's adjoint (two assigning Restriction adjoints) coincides with it
-   when no two positions share a cell, i.e. the floor indices are distinct *)
-Theorem interp_adj_code_partial n ls ws y : NoDup ls -> interp_adj n ls ws y = interp_adj_add n ls ws y.
-Proof. intros H. unfold interp_adj, interp_adj_add. rewrite !restr_adj_scatter_add; auto.
+(* Legacy: the assigning adjoint agreed with it only for distinct floor indices *)
+Lemma interp_adj_legacy_eq n ls ws y : NoDup ls -> interp_adj_legacy n ls ws y = interp_adj n ls ws y.
+Proof. intros H. unfold interp_adj, interp_adj_legacy. rewrite !restr_adj_legacy_scatter_add; auto.
   apply FinFun.Injective_map_NoDup; auto. intros a b E; inversion E; auto. Qed.
-Theorem interp_adjoint_code_partial ls ws x y : NoDup ls -> length ws = length ls -> length y = length ls ->
-  dotu R (interp_fwd ls ws x) y = dotu R x (interp_adj (length x) ls ws y).
-Proof. intros; rewrite interp_adj_code_partial by auto. apply interp_adjoint; auto. Qed.
 Theorem interp_linear ls ws : length ws = length ls -> Linear R (interp_fwd ls ws).
 Proof. intros Hw. apply linear_of_entries with (len := fun _ => length ls) (spec := interp_spec ls ws).
   - intros; apply interp_fwd_length; auto.
